@@ -9,7 +9,7 @@ import ast
 from ..models import ModelEval, PyObj, Marker, Raised
 from ..peval import Model, Unsupported, ProgramRaised
 from ..source import AnalysisError
-from .core_models import slice_key, ArrTok, RawTok, NdTok, QtyTok, core_hooks, make_vector, vector_components, VECTOR_Q, DG_Q, DS_Q
+from .core_models import BoolList, slice_key, ArrTok, RawTok, NdTok, QtyTok, core_hooks, make_vector, vector_components, VECTOR_Q, DG_Q, DS_Q
 from .vector_rules import FORWARDED
 
 ERR = (Unsupported, AnalysisError)
@@ -709,7 +709,7 @@ def check_group_indexing(run, tree):
                  ("strided slice", slice(None, None, 2), slice_key((4,), slice(None, None, 2))),
                  ("boolean mask (ndarray)", RawTok("mask", (4,)), "mask"), ("mask given as an Array", ArrTok("amask", "dimensionless", (4,)), None),
                  ("integer index array", RawTok("perm", (4,)), "perm"),
-                 ("python list of row numbers", [2, 0], [2, 0]), ("empty python list (selects no row: every member stays, with zero rows)", [], []),
+                 ("python list of row numbers", [2, 0], [2, 0]), ("a mask written as a python list of booleans", BoolList([True, False, True, True]), BoolList([True, False, True, True])), ("empty python list (selects no row: every member stays, with zero rows)", [], []),
                  # members with several values per row ((3, 4) grids): a full boolean mask selects ELEMENTS of every member alike
                  ("N-d boolean mask on N-d members", RawTok("mask2d", (3, 4), _bool_dtype()), "mask2d")]
     for label, idx, key, comp in [c + (m,) for c in idx_cases for m in COMPOSITIONS]:
